@@ -415,6 +415,35 @@ theorem pointer_shape_witness :
     holds 1000 2 [7] [.open c0, .hs c0 true] (run ⟨⟨true, true, false⟩, .ptr, 1000⟩ 2 [7] [.open c0, .hs c0 true]) = false := by
   decide
 
+/-! ## Known finding `index-check-then-act` (storage-call granularity — finer than the events of the property)
+
+The repaired `UnregisterConnection` / `RefreshConnection` read the index and then delete / rewrite it in a second
+storage call.  When another node registers the client between the two calls, the decision is stale.  The
+harness forces these schedules with gated store handles (`sched` cases); no storage backend offers an atomic
+compare-and-delete (the hybrid storage does not even forward `CompareAndSwap`), so this is recorded, not repaired. -/
+
+def P0 : Params := ⟨repaired, .str, 1000⟩
+
+/-- Client 7 registered on `c0` (node 0). -/
+def sA : Store := registerConnection P0 0 0 FMap.empty ⟨c0, 7, 0, true⟩
+
+/-- Node 1 registers the reconnected client on `c1`. -/
+def sB : Store := registerConnection P0 1 0 sA ⟨c1, 7, 1, true⟩
+
+/-- Node 0 starts `UnregisterConnection(c0)` (or `RefreshConnection(c0)`) on `sA`: record found, index names `c0`. -/
+theorem check_then_act_reads :
+    getConnectionState P0 0 sA c0 = .ok (infoOf c0) ∧ clientIndexPointsTo 0 sA 7 c0 = true := by decide
+
+/-- … node 1 registers in between (`sB`, where the lookup is right) … and node 0 carries out the two deletes it
+decided on: the location written by node 1 is erased, the connected client is reported as not connected. -/
+theorem index_check_then_act_witness :
+    findClientNode P0 0 sB 7 = .found 1 c1 ∧
+    findClientNode P0 0 (del (del sB (.client 7)) (.conn c0)) 7 = .notFound := by decide
+
+/-- The same window in `RefreshConnection`: the stale connection's heartbeat writes the index back to itself. -/
+theorem refresh_check_then_act_witness :
+    findClientNode P0 0 (set 0 1000 sB (.client 7) (.id c0)) 7 = .found 0 c0 := by decide
+
 /-! ## Non-vacuity -/
 
 /-- The history above ends with clause (A) active: the reference demands `(node 1, c1)` … -/
